@@ -43,11 +43,27 @@ def _init_worker():
     bootstrap.install()
 
 
+_PROCESS_LOG = []      # (funcname, arg) of everything this worker process executed so far, in order
+
+
 def _call(modname, funcname, arg):
-    """Executed in a worker process."""
+    """Executed in a worker process.  Violations carry the (bounded) history of what this process ran before, because
+    module-level state in kingdon (e.g. a cache shared by all algebras) makes behaviour depend on it; a replay that
+    does not reproduce from a fresh process is retried after replaying that history."""
     try:
         mod = importlib.import_module(modname)
         res = getattr(mod, funcname)(arg)
+        if isinstance(res, dict) and res.get('violations'):
+            prior = _PROCESS_LOG[-8:]
+            try:
+                blob = json.dumps(jsonable([[f, a] for f, a in prior] + [[funcname, arg]]))
+            except Exception:
+                blob = None
+            if blob is not None and len(blob) < 400000:
+                for v in res['violations']:
+                    if isinstance(v.get('case'), dict):
+                        v['case'] = dict(v['case'], _process_history=json.loads(blob))
+        _PROCESS_LOG.append((funcname, arg))
         return ('ok', res)
     except BaseException:
         return ('err', traceback.format_exc())
@@ -181,6 +197,10 @@ def load_known(pid):
     return {e['key']: e for e in data.get('findings', []) if e.get('property') == pid}
 
 
+def _detuple(x):
+    return x
+
+
 def jsonable(x):
     if isinstance(x, dict):
         return {str(k): jsonable(v) for k, v in x.items()}
@@ -306,12 +326,27 @@ def do_replay(pid, mod, path):
     with open(path) as f:
         rec = json.load(f)
     case = rec['case']
-    if hasattr(mod, 'replay'):
+    hist = case.pop('_process_history', None) if isinstance(case, dict) else None
+    if os.environ.get('VERIF_REPLAY_MODE') == 'history' and hist:
+        # pristine process: replay what the worker process had executed before, then the failing work item
+        res = {'violations': []}
+        for fname, arg in hist:
+            out = getattr(mod, fname)(arg)
+            if isinstance(out, dict):
+                res = out
+    elif hasattr(mod, 'replay'):
         res = mod.replay(case)
     else:
         res = mod.run_shard(case['shard'])
     keys = sorted({v['key'] for v in res.get('violations', [])})
     hit = rec['key'] in keys
+    if not hit and hist and os.environ.get('VERIF_REPLAY_MODE') != 'history':
+        # not reproducible on its own: module-level state of kingdon may depend on what the process ran before
+        print(f'REPLAY not reproduced on its own; replaying the process history ({len(hist) - 1} earlier work items) in a pristine process')
+        p = subprocess.run([PY, '-m', 'kverif.run', pid, '--replay', path], cwd=ROOT, env=dict(os.environ, VERIF_REPLAY_MODE='history'),
+                           capture_output=True, text=True, timeout=3600)
+        sys.stdout.write(p.stdout)
+        return p.returncode
     for v in res.get('violations', []):
         if v['key'] == rec['key']:
             print(f"REPLAY violation key={v['key']} what={v['what']} expected={v['expected']} observed={v['observed']}")
